@@ -262,6 +262,8 @@ func runC07(c *Ctx, tier string) {
 	}
 	runNullsFirstSortNotPropagated(c, "C07-N3")
 	runJoinSidesSwapTogether(c, "C07-J1")
+	runOnlyLeadingFilterPushed(c, "C07-F2")
+	runMultiParentSortKeyOnlyForMerge(c, "C07-M2")
 }
 
 func fnParams(p *Prog, fn *ssa.Function) []string {
@@ -549,6 +551,7 @@ func runC08(c *Ctx, tier string) {
 		c.Fail("C08-M1", "parallelizeSeqScan merge key", fn.Pos(), "parallelizeSeqScan never builds a Merge")
 	}
 	runMergeHeapRootOnly(c, "C08-M3")
+	runElementIndependence(c, "C08-P5", "runtime/sam/expr/agg")
 }
 
 func init() {
